@@ -40,6 +40,7 @@ func checkTrace(tr []lab.Event, liveTrace bool) (viol []string, deliveries int) 
 	// sequence reset / reset. If it passes n otherwise and an application message numbered n arrives
 	// afterwards, that message can never be delivered.
 	curIn, curInKnown := 0, false
+	curGapFill := false
 	received := map[int]bool{}
 	unjustified := map[int]string{}
 	endStep := func() {
@@ -58,6 +59,9 @@ func checkTrace(tr []lab.Event, liveTrace bool) (viol []string, deliveries int) 
 			curIn, curInKnown = 0, false
 		case "in":
 			curIn, curInKnown = e.Seq, e.Seq > 0
+			t35, _ := e.Fields.Get(35)
+			gf, _ := e.Fields.Get(123)
+			curGapFill = t35 == "4" && gf == "Y"
 			if t, _ := e.Fields.Get(35); e.Seq > 0 && !fixwire.IsAdminMsgType(t) {
 				if why, bad := unjustified[e.Seq]; bad {
 					viol = append(viol, fmt.Sprintf("lost-behind-unjustified-advance: application message %d arrives but can never be delivered: %s", e.Seq, why))
@@ -103,6 +107,12 @@ func checkTrace(tr []lab.Event, liveTrace bool) (viol []string, deliveries int) 
 				}
 				if e.After < e.Before {
 					viol = append(viol, fmt.Sprintf("moved-backwards: next expected number %d->%d via %s without a reset", e.Before, e.After, e.StoreOp))
+				}
+				if !liveTrace && e.StoreOp == "SetTarget" && e.After > e.Before && curInKnown && curGapFill && curIn != e.Before && !received[e.Before] {
+					// a gap fill moves the expected number only when it is itself the expected message
+					for n := e.Before; n < e.After && n < e.Before+64; n++ {
+						unjustified[n] = fmt.Sprintf("a gap fill numbered %d moved the expected number %d->%d although no message numbered %d had been received", curIn, e.Before, e.After, e.Before)
+					}
 				}
 				if !liveTrace && e.StoreOp == "IncrTarget" && e.After == e.Before+1 && curInKnown && curIn != e.Before && !received[e.Before] {
 					unjustified[e.Before] = fmt.Sprintf("the expected number went %d->%d while the frame being handled was numbered %d and no message numbered %d had been received", e.Before, e.After, curIn, e.Before)
@@ -229,6 +239,16 @@ func event(l *lab.Lab, p *lab.Peer, r *rand.Rand, kind string, rel int, pd strin
 			rs = 1
 		}
 		l.In(fmt.Sprintf("Logon (in session) seq=%d 141=%s (expected %d)", rs, flag, exp), p.Logon(rs, 30, extra...))
+	case "logon-refused":
+		// the application refuses the Logon in FromAdmin (whatever number it carries)
+		l.App.FromAdminFn = func(m *quickfix.Message) quickfix.MessageRejectError {
+			if m.IsMsgTypeOf("A") {
+				return quickfix.RejectLogon{Text: "refused by the application"}
+			}
+			return nil
+		}
+		l.In(fmt.Sprintf("Logon seq=%d (expected %d), refused by the application", seq, exp), p.Logon(seq, 30))
+		l.App.FromAdminFn = nil
 	case "reject":
 		l.In(fmt.Sprintf("Reject seq=%d (expected %d)", seq, exp), p.Msg("3", seq, hdr, fixwire.Fields{lab.F(45, "1")}))
 	}
@@ -305,6 +325,13 @@ func history(c *core.Ctx, r *core.Result, stream string, i int, rng *rand.Rand, 
 				}
 				if l.Snap().Connected {
 					l.Disconnect()
+				}
+				if rng.Intn(5) == 0 && l.Connect() == nil {
+					// a connection attempt whose Logon (with any number) the application refuses
+					fp.WriteString("|" + event(l, p, rng, "logon-refused", core.Pick(rng, 0, 0, -3, -1, 2, 5), ""))
+					if l.Snap().Connected {
+						l.Disconnect()
+					}
 				}
 				p.NextOut = l.Snap().NextTarget
 				if !l.Establish(p, 30) {
